@@ -15,6 +15,9 @@ import ArvVerif.Proofs.C06_Sched
 import ArvVerif.Proofs.C06_Index
 import ArvVerif.Proofs.C06_Run
 import ArvVerif.Proofs.C06_GCS_Queue
+import ArvVerif.Proofs.C06_GCS_Live
+import ArvVerif.Proofs.C06_GCS_Acc
+import ArvVerif.Proofs.C06_Decimal
 namespace ArvVerif.C06
 
 /-! ## (a) paging -/
@@ -235,6 +238,51 @@ example : VolWF ⟨[exL2], exL1.take 5, false⟩ :=
 example : handleIndex ([⟨[exL1], [], true⟩, ⟨[exL2], exL1.take 5, false⟩, ⟨[exL1], [], true⟩].map VolRun.out)
     = exL1 ++ [10] ++ exL2 ++ [10] ++ exL1.take 5 := by decide +kernel
 
+/-- **The producer's exact line format, for all n.** keepstore's `IndexTo` writes one line
+`<hash>+<size> <mtime>` per block (`fmt.Fprint(w, name, "+", size, " ", mtime.UnixNano(), "\n")`). For
+every list of blocks — any hash of 1..64 hex digits, any size and any mtime in int64 range, the decimal
+numerals of any length — the complete response is accepted by `KeepService.index` with exactly the
+entries `(<hash>+<size>, mtime)` (legacy-seconds fix applied), and every proper prefix of it is
+rejected by both readers. This discharges the `AllGood` hypothesis of `C06_index_truncation` for
+everything the producer can write (decimal round trip `parseInt64 (decimal n) = n`). -/
+theorem C06_index_producer_format (bs : List (List Nat × Nat × Nat))
+    (h : ∀ b ∈ bs, b.1 ≠ [] ∧ (∀ x : Nat, x ∈ b.1 → isHex x) ∧ b.1.length ≤ 64 ∧ b.2.1 < 2 ^ 63 ∧ b.2.2 < 2 ^ 63) :
+    ksIndex (render (bs.map (fun b => producerLine b.1 b.2.1 b.2.2))) =
+      .ok (bs.map (fun b => ⟨b.1 ++ 43 :: decimal b.2.1, fixMtime (b.2.2 : Int)⟩)) ∧
+    (∀ P, P <+: render (bs.map (fun b => producerLine b.1 b.2.1 b.2.2)) →
+      P ≠ render (bs.map (fun b => producerLine b.1 b.2.1 b.2.2)) →
+      (∃ e, ksIndex P = .error e) ∧ getIndex P = .error .incomplete) := by
+  have hg := producer_allGood bs h
+  have hok : ∀ l ∈ bs.map (fun b => producerLine b.1 b.2.1 b.2.2), LineOK l := by
+    intro l hl
+    simp only [List.mem_map] at hl
+    obtain ⟨b, hb, rfl⟩ := hl
+    obtain ⟨h1, h2, h3, h4, h5⟩ := h b hb
+    exact (producerLine_good b.1 b.2.1 b.2.2 h1 h2 h3 h4 h5).ok
+  exact ⟨ksIndex_accepts _ _ hg,
+    fun P hp hne => ⟨ksIndex_rejects_prefix _ hok P hp hne, getIndex_rejects_prefix _ hok P hp hne⟩⟩
+
+/-- the decimal round trip itself, for every n in int64 range (`strconv.ParseInt` of what `fmt` prints) -/
+theorem C06_index_decimal_roundtrip (n : Nat) (h : n < 2 ^ 63) : parseInt64 (decimal n) = some (n : Int) :=
+  parseInt64_decimal n h
+
+/-- a block with a 32-digit hash, size 67108864 and a nanosecond mtime; one with a legacy seconds mtime -/
+example : producerLine [100, 52, 49, 100] 67108864 1600000000000000000 =
+    [100, 52, 49, 100, 43, 54, 55, 49, 48, 56, 56, 54, 52, 32,
+     49, 54, 48, 48, 48, 48, 48, 48, 48, 48, 48, 48, 48, 48, 48, 48, 48, 48, 48] := by decide +kernel
+example : ksIndex (render ([([100, 52, 49, 100], 67108864, 1600000000000000000), ([97, 48], 0, 12345678)].map
+      (fun b => producerLine b.1 b.2.1 b.2.2))) =
+    .ok ([([100, 52, 49, 100], 67108864, 1600000000000000000), ([97, 48], 0, 12345678)].map
+      (fun b => (⟨b.1 ++ 43 :: decimal b.2.1, fixMtime (b.2.2 : Int)⟩ : Entry))) :=
+  (C06_index_producer_format [([100, 52, 49, 100], 67108864, 1600000000000000000), ([97, 48], 0, 12345678)]
+    (by intro b hb; simp at hb; rcases hb with rfl | rfl <;>
+        refine ⟨by simp, ?_, by simp, by simp, by simp⟩ <;> intro x hx <;> simp at hx <;>
+        unfold isHex <;> omega)).1
+/-- … i.e. `d41d+67108864` with the nanosecond mtime, `a0+0` with the seconds mtime × 10⁹ -/
+example : ([100, 52, 49, 100] ++ 43 :: decimal 67108864, fixMtime 1600000000000000000, fixMtime 12345678) =
+    ([100, 52, 49, 100, 43, 54, 55, 49, 48, 56, 56, 54, 52], 1600000000000000000, 12345678000000000) := by
+  decide +kernel
+
 /-! ## (c) sweep abort -/
 
 /-- `Balancer.Run` (its guard list `runSteps`, tied to the source by Tie.C06.tie_run_steps): under
@@ -336,6 +384,34 @@ theorem C06_gcs_nil_is_complete (n cap : Nat) (g : GCS.G) (r : GCS.Reach n cap g
     g.sh.added = g.sh.delivered ∧ g.sh.dropped = 0 ∧ g.sh.q = 0 ∧ g.sh.closed = true :=
   ⟨GCS.nil_result_workers_added r ht hnil, GCS.nil_result_all_added r ht hnil⟩
 
+/-- **Deadlock-freedom.** For every number of index workers, every `collQ` capacity ≥ 1 and every
+interleaving: in a reachable state in which some goroutine has not yet ended, some goroutine can take
+a step — `wg.Wait()` never waits on goroutines that all block (the processor's receive/drain on an
+empty open `collQ`, the scanner's send on a full one). With `C06_paging_progress` (the scanner's
+`EachCollection` ends) every run of `GetCurrentState` therefore reaches its terminal state. -/
+theorem C06_gcs_no_deadlock (n cap : Nat) (hc : 1 ≤ cap) (g : GCS.G) (r : GCS.Reach n cap g)
+    (hnt : ¬ GCS.Terminal g) : ∃ g', GCS.Step g g' :=
+  GCS.no_deadlock hc r hnt
+
+/-- **Soundness of the trace acceptor** the correspondence check runs on every observed execution of
+the real `GetCurrentState` (`gcsacc`): whenever it accepts an observation — per-goroutine statement
+paths of `wpaths.length` index workers, the processor and the scanner, queue capacity `cap`, result
+`res` — the small-step system has an interleaving (a `Reach`able state) in which every goroutine has
+ended with that result; so by `C06_gcs_first_error` the observed result is an error iff something
+failed in that execution, and `errs` holds no nil. The search's partial-order reduction and visited
+set can only make it accept less. -/
+theorem C06_gcs_acceptor_sound (buckets cap : Nat) (wpaths : List (List Nat)) (ppath spath : List Nat)
+    (res : Bool) (fuel : Nat) (h : GCS.acceptsWith buckets cap wpaths ppath spath res fuel = some true) :
+    ∃ g, GCS.Reach wpaths.length cap g ∧ GCS.Terminal g ∧ GCS.resultIsError g = res ∧
+      (res = true ↔ GCS.Failed g) ∧ g.sh.errs ≠ some false := by
+  obtain ⟨g, hr, ht, hres, hn⟩ := GCS.acceptsWith_sound buckets cap wpaths ppath spath res fuel h
+  exact ⟨g, hr, ht, hres, by rw [← hres]; exact (GCS.result_iff_failed hr ht).1, hn⟩
+
+/-- the deployed instance: `accepts` = `acceptsWith 8192` (size of the visited table) -/
+theorem C06_gcs_acceptor_sound_deployed : ∀ cap wpaths ppath spath res fuel,
+    GCS.accepts cap wpaths ppath spath res fuel = GCS.acceptsWith 8192 cap wpaths ppath spath res fuel :=
+  fun _ _ _ _ _ _ => rfl
+
 section examples_gcs
 open GCS
 /-- one index worker whose request fails, while one collection is delivered and added -/
@@ -363,6 +439,18 @@ example : (moves (GCS.init 1 4) exScriptFail).map
 example : (moves (GCS.init 2 4) exScriptOk).map
     (fun g => (terminalB g, g.sh.errs, g.ws.map (·.added), g.sh.delivered, g.sh.added)) =
     some (true, none, [true, true], 1, 1) := by decide +kernel
+/-- the start state is not terminal, and neither is the state in which the scanner waits on a full
+queue of capacity 1 while the processor has not started: both have a successor -/
+example : ∃ g', GCS.Step (GCS.init 2 1) g' :=
+  C06_gcs_no_deadlock 2 1 (by decide) _ .start (by simp [Terminal, GCS.init, initLoc])
+example : (moves (GCS.init 0 1) [.s 0, .s 1, .s 0, .s 0, .s 1]).map (fun g => (g.s.pc, g.sh.q, g.sh.cap, g.p.pc)) =
+    some (3, 1, 1, 1) := by decide +kernel
+/-- the observation of `exScriptFail` (visited table of size 0, which the kernel evaluates quickly; worker path through the error branch, processor draining,
+scanner closing the queue; result = error) is accepted; a nil result for the same paths is not -/
+example : acceptsWith 0 4 [[1, 2, 3, 4, 5, 6, 7, 0]] [1, 2, 3, 4, 5, 6, 7, 8, 0] [1, 2, 3, 4, 6, 8, 9, 0] true 2000 =
+    some true := by decide +kernel
+example : acceptsWith 0 4 [[1, 2, 3, 4, 5, 6, 7, 0]] [1, 2, 3, 4, 5, 6, 7, 8, 0] [1, 2, 3, 4, 6, 8, 9, 0] false 2000 =
+    some false := by decide +kernel
 end examples_gcs
 
 /-- `CheckSanityLate` refuses a sweep whose collection scan delivered nothing. -/
